@@ -279,6 +279,17 @@ def h_poly_ops(env, N, op):
             return (A.trace(),)
         elif op == 'neg_scale':
             R = 2 * (-A)
+        elif op == 'matmul_then_reuse':
+            # a product with a one-term right operand, then the left operand is used again (and looked at)
+            R1 = A @ B[0:1]
+            R2 = A @ B
+            R3 = B[0:1] @ A
+            return (R1.gs, R1.ps, R1.cs, R2.gs, R2.ps, R2.cs, R3.gs, R3.ps, R3.cs, A.gs, A.ps, A.cs, B.gs, B.ps)
+        elif op == 'pauli_matmul_then_reuse':
+            Pa = P.Pauli(conv(x['g1'])[0], conv(x['p1'])[0])
+            R1 = Pa @ B[0:1]
+            R2 = Pa @ B
+            return (R1.gs, R1.ps, R1.cs, R2.gs, R2.ps, R2.cs, Pa.g, Pa.p)
         return (R.gs, R.ps, R.cs)
     rn = env.run(lambda: run(Pn, lambda a, k='f': a.copy()))
     rt = env.run(lambda: run(Pt, lambda a, k='f': tt(env, a, k)))
@@ -511,7 +522,7 @@ def jobs(tier):
             if N == 1 and op.endswith('masked'):
                 continue
             J.append(dict(harness=('c13', 'h_list_ops'), params=dict(N=N, op=op), timeout_s=300))
-        for op in ('matmul', 'add', 'reduce', 'trace', 'neg_scale'):
+        for op in ('matmul', 'add', 'reduce', 'trace', 'neg_scale', 'matmul_then_reuse', 'pauli_matmul_then_reuse'):
             J.append(dict(harness=('c13', 'h_poly_ops'), params=dict(N=N, op=op), timeout_s=300, max_paths=5000))
         for op in ('compose', 'inverse', 'to_state', 'copy', 'roundtrip'):
             if op == 'inverse' and N == 2:
